@@ -145,6 +145,8 @@ def run(ctx: Ctx) -> None:
 
     from ..wiring import wiring_rule
     wiring_rule(ctx, "R11.wire", which=("instruction",))
+    from ..wiring import metrics_identity_rule
+    metrics_identity_rule(ctx, "R11.metrics")
     acct_rule(ctx, "R11.acct", only=lambda f: f.name == "read_instruction")
     hit_rule(ctx, "R11.hit")
     load_rules(ctx, "R11.load", icache_only=True)
